@@ -24,7 +24,7 @@ static void alias_case(Out& out, Rng& rng, const char* name, MulFn fn, const voi
   std::string verdict = "ok";
   if (memcmp(r0.data(), ra.data(), nd * 8)) verdict = std::string("FAIL C13 ") + name + " with r==a differs from the out-of-place product (m=" + std::to_string(m) + ")";
   else if (memcmp(r0.data(), rb.data(), nd * 8)) verdict = std::string("FAIL C13 ") + name + " with r==b differs from the out-of-place product (m=" + std::to_string(m) + ")";
-  fprintf(out.ops, "ca nop");
+  fprintf(out.ops, "ca nop alias_mul %s m=%u", name, m);
   fprintf(out.real, "nop");
   out.endcase(verdict);
   out.count(name);
